@@ -51,4 +51,46 @@ def exWire : Wire :=
 
 example : exWire.WF = true ∧ exWire.reserved = false := by decide
 
+/-! ### the known finding `c03_reserved_id` (DESIGN §7 row 2) -/
+
+/-- smallest member of the region: a one-byte block whose only element has the reserved id 15 -/
+def reservedWire : Wire := { version := 2, ext := some (.oneByte [.elem 15 [0xAA]]), payload := [1, 2, 3] }
+
+example : reservedWire.WF = true ∧ reservedWire.reserved = true ∧
+    reservedWire.encode = [0x90, 0, 0, 0, 0, 0, 0, 0, 0, 0, 0, 0, 0xBE, 0xDE, 0, 1, 0xF0, 0xAA, 0, 0, 1, 2, 3] := by decide
+
+/-- what the model (and, by the correspondence run, the code) does there: the header ends right
+    after the id-15 byte — offset 17 instead of 20, and the three unread block bytes are handed
+    out as payload -/
+theorem c03_reserved_id_model :
+    hdrUnmarshal {} reservedWire.encode = .ok (hdrOf {} reservedWire, 17) ∧ reservedWire.extEnd = 20 ∧
+    (pktUnmarshal {} reservedWire.encode).map (·.payload) = .ok [0xAA, 0, 0, 1, 2, 3] := by
+  have h := hdrUnmarshal_encode reservedWire {} (by decide)
+  have e : reservedWire.extEnd - wireUnread reservedWire = 17 := by decide
+  rw [e] at h
+  refine ⟨h, by decide, ?_⟩
+  have hh : hdrUnmarshal ({} : Packet).header reservedWire.encode = .ok (hdrOf {} reservedWire, 17) := h
+  simp only [pktUnmarshal, hh]
+  decide
+
+/-- the full statement of sentence (1) is false: the negation on a concrete input -/
+theorem c03_reserved_id_witness : ¬ c03_accepts_full := by
+  intro hfull
+  obtain ⟨p, _, _, h3⟩ := hfull reservedWire (by decide) {}
+  have h := c03_reserved_id_model.1
+  have hh : hdrUnmarshal ({} : Packet).header reservedWire.encode = .ok (hdrOf {} reservedWire, 17) := h
+  rw [hh] at h3
+  have : (17 : Nat) = reservedWire.extEnd := by
+    injection h3 with h3; exact (Prod.mk.injEq _ _ _ _ ▸ h3).2
+  rw [c03_reserved_id_model.2.1] at this
+  exact absurd this (by decide)
+
+/-- and the predicate the driver evaluates fails on the model's observation of that input -/
+theorem c03_reserved_id_pred :
+    Pred.C03.acceptsOK reservedWire (Pred.C03.modelObs reservedWire.encode) = false := by
+  have h := c03_reserved_id_model.1
+  simp only [Pred.C03.acceptsOK, Pred.C03.modelObs, h, Res.map, Res.coarse]
+  rw [Bool.and_eq_false_iff]; right
+  rw [c03_reserved_id_model.2.1]; decide
+
 end Rtp.Props.C03
